@@ -47,6 +47,9 @@ def run(ctx):
                 nu2 = np.exp(np.array([r.uniform(np.log(1e-6), np.log(1e6)) for _ in range(n)]))
                 m = 10 ** np.array([r.uniform(8, 17) for _ in range(n)])
                 neff = np.array([r.uniform(-2.9, -0.1) for _ in range(n)])
+                if rep % 2 == 1:
+                    for j in r.sample(range(n), min(n, 2)):
+                        neff[j] = r.choice([-3.0, -3.2, -3.5])      # flat or falling sigma(m): allowed array content
                 z = r.choice(zs)
                 base = make(ff, md, name, nu2, z, Planck15, m, neff)
                 f0, c0 = base.fsigma, base.cutmask
